@@ -1770,7 +1770,26 @@ get_preprocessor_args(int c, string &args) {
   c = skip_comment(c);
 
   while (c != EOF && c != '\n') {
-    if (c == '\\') {
+    if (c == '"' || c == '\'') {
+      // Copy a string or character literal as it is, so that a "/*" or "//"
+      // inside it is not taken for a comment.  An unterminated literal ends
+      // at the end of the line.
+      int quote_mark = c;
+      args += c;
+      c = get();
+      while (c != EOF && c != '\n' && c != quote_mark) {
+        if (c == '\\' && peek() != '\n' && peek() != EOF) {
+          args += c;
+          c = get();
+        }
+        args += c;
+        c = get();
+      }
+      if (c != quote_mark) {
+        continue;
+      }
+      args += c;
+    } else if (c == '\\') {
       int next_c = get();
       if (next_c == '\n') {
         // Here we have an escaped newline: a continuation.
@@ -2119,6 +2138,24 @@ skip_false_if_block(bool consider_elifs) {
           return;
         }
         level--;
+      }
+    } else if (c == '"' || c == '\'') {
+      // Step over a string or character literal, so that a "/*" inside it is
+      // not taken for the start of a comment.  An unterminated literal ends
+      // at the end of the line.
+      int quote_mark = c;
+      c = get();
+      while (c != EOF && c != '\n' && c != quote_mark) {
+        if (c == '\\') {
+          c = get();
+          if (c == EOF || c == '\n') {
+            break;
+          }
+        }
+        c = get();
+      }
+      if (c == quote_mark) {
+        c = skip_comment(get());
       }
     } else {
       c = skip_comment(get());
